@@ -37,6 +37,26 @@ HANDLER_KINDS = ["str", "dict", "list", "int", "none", "object", "raise_value", 
                  "raise_code_int", "raise_code_str", "raise_code_none", "raise_code_callable", "raise_code_jsonrpc"]
 
 
+# what an exception may say: nothing at all, several lines, format-string look-alikes, non-ASCII, a lot
+EXC_TEXTS = ["", "\n", "line one\nline two\n  File \"x.py\", line 3", "%s %d %(x)s {0} {x} {", "caf\u00e9 \u2028 \U0001F600", "x" * 5000, " ", "\x00\x1b[31m"]
+
+
+def texted_exception(kind: str) -> BaseException:
+    """raise_msg_<i>: exception number i of a fixed list of (type, text) pairs - `raise RuntimeError()`, a bare assert, a
+    timeout of the handler's own I/O, a KeyError (whose str() is the repr of its key) ..."""
+    import asyncio as _a
+
+    i = int(kind.rsplit("_", 1)[1])
+    text = EXC_TEXTS[i % len(EXC_TEXTS)]
+    types = [RuntimeError, ValueError, _a.TimeoutError, AssertionError, LookupError, OSError, KeyError, Exception]
+    t = types[(i // len(EXC_TEXTS)) % len(types)]
+    return t() if text == "" and (i // len(EXC_TEXTS)) % 2 == 0 else t(text)
+
+
+N_EXC = 8 * 8
+RAISE_MSG_KINDS = [f"raise_msg_{i}" for i in range(N_EXC)]
+
+
 def foreign_exception(which: str) -> Exception:
     """exceptions of other libraries that happen to carry a `code` (HTTP clients, database drivers, RPC stubs): to the
     dispatcher they are handler failures like any other"""
@@ -80,6 +100,8 @@ def make_tool(kind: str):
             raise KeyError("k")
         if kind.startswith("raise_code_"):
             raise foreign_exception(kind[len("raise_code_"):])
+        if kind.startswith("raise_msg_"):
+            raise texted_exception(kind)
         if kind == "nested_bad_json":
             return {"s": {1, 2}}
         if kind == "slow_str":
@@ -102,6 +124,14 @@ def make_tool(kind: str):
 
 def make_resource(kind: str):
     async def h():
+        if kind in ("slow_str", "raise_slow"):
+            import asyncio as _a
+
+            await _a.sleep(0.02)
+            if kind == "slow_str":
+                return "slow content"
+        if kind.startswith("raise_msg_"):
+            raise texted_exception(kind)
         if kind.startswith("raise"):
             raise RuntimeError("resource boom")
         if kind == "none":
@@ -141,6 +171,13 @@ def build_server(prog: Dict[str, Any]):
                     raise RuntimeError("custom boom")
                 if k.startswith("raise_code_"):
                     raise foreign_exception(k[len("raise_code_"):])
+                if k.startswith("raise_msg_"):
+                    raise texted_exception(k)
+                if k == "slow_answer":
+                    import asyncio as _a
+
+                    await _a.sleep(0.02)
+                    return ph.create_response(getattr(message, "id", None), {"custom": "slow"}), None
                 if k == "raise_slow":
                     import asyncio as _a
 
@@ -241,9 +278,105 @@ def check_life(case: Dict[str, Any]) -> Outcome:
     return out
 
 
+def _handler_kind(prog: Dict[str, Any], method: str, params: Any) -> Optional[str]:
+    tools, resources, custom = prog.get("tools", []), prog.get("resources", []), dict(prog.get("custom", []))
+    if method == "tools/call" and isinstance(params, dict):
+        nm = params.get("name")
+        if isinstance(nm, str) and nm.startswith("tool") and nm[4:].isdigit() and int(nm[4:]) < len(tools):
+            return tools[int(nm[4:])]
+    if method == "resources/read" and isinstance(params, dict):
+        u = params.get("uri")
+        if isinstance(u, str) and u.startswith("file:///r") and u[9:].isdigit() and int(u[9:]) < len(resources):
+            return "res:" + resources[int(u[9:])]
+    if method in custom:
+        return "custom:" + custom[method]
+    return None
+
+
+def check_concurrent(case: Dict[str, Any]) -> Outcome:
+    """several messages dispatched on one server while the others are still in flight (a transport that does not wait
+    for one handler before reading the next line): every request gets exactly one response with ITS id, whatever else
+    is being handled at that moment - the same tool, the same resource, the same method with the same arguments."""
+    import asyncio as _a
+
+    out = Outcome(nontrivial=True)
+    prog = case["server"]
+    msgs = case["concurrent"]
+    srv = build_server(prog)
+    built = []
+    for m in msgs:
+        try:
+            built.append(build_message(m))
+        except Exception:
+            out.classes = ("skipped-not-wellformed",)
+            out.nontrivial = False
+            return out
+    same = len({(m["method"], json.dumps(m.get("params"), sort_keys=True, default=str)) for m in msgs}) < len(msgs)
+    out.classes = ("concurrent-dispatch", f"in-flight:{len(msgs)}", "same-method-and-arguments" if same else "different-targets")
+    results: List[Any] = [None] * len(msgs)
+
+    async def one(k: int):
+        await _a.sleep(msgs[k].get("delay", 0.0))
+        try:
+            results[k] = ("ret", await srv.protocol_handler.handle_message(built[k][1], None))
+        except Exception as e:  # noqa
+            results[k] = ("raise", e)
+
+    async def go():
+        await _a.gather(*[one(k) for k in range(len(msgs))])
+
+    try:
+        run_virtual(go)
+    except Exception as e:  # noqa
+        out.fail("concurrent-dispatch-harness-raised", f"{type(e).__name__}: {e}")
+        return out
+    for k, m in enumerate(msgs):
+        is_req = "id" in m
+        how, val = results[k]
+        if how == "raise":
+            out.fail("dispatch-raised-on-request" if is_req else "dispatch-raised-on-notification", f"message {k} of {json.dumps(msgs, default=str)[:300]}: {type(val).__name__}: {str(val)[:200]}")
+            continue
+        resp = val[0] if isinstance(val, tuple) and len(val) == 2 else "$shape"
+        if resp == "$shape":
+            out.fail("dispatch-return-shape", repr(val)[:200])
+            continue
+        if not is_req:
+            if resp is not None:
+                out.fail("notification-was-answered", f"message {k}: {m!r}")
+            continue
+        if _handler_kind(prog, m["method"], m.get("params")) == "custom:none":
+            continue  # (a custom handler that breaks its own contract: see ASSUMPTIONS)
+        if resp is None:
+            out.fail("request-not-answered", f"message {k}: {m!r}")
+            continue
+        try:
+            w = json.loads(resp.model_dump_json(exclude_none=True))
+        except Exception as e:  # noqa
+            out.fail("response-not-serialisable", f"{m!r}: {type(e).__name__}: {e}")
+            continue
+        kind, why = classify(w)
+        if kind not in ("result", "error"):
+            out.fail("response-not-valid-jsonrpc", f"{why}: {w!r}")
+            continue
+        if not strict_eq(w.get("id"), m["id"]):
+            out.fail("response-id-differs:concurrent", f"request {k} id {m['id']!r} answered with id {w.get('id')!r}; in flight: {[x.get('id', '$notification') for x in msgs]!r}")
+            continue
+        hk = _handler_kind(prog, m["method"], m.get("params"))
+        base = (hk or "").split(":")[-1]
+        if hk is not None and base.startswith("raise") and not (kind == "error" and w["error"].get("code") == -32603):
+            out.fail("raising-handler-not-32603", f"{hk}: {w!r}")
+        if hk is not None and base in ("str", "slow_str", "answer", "slow_answer") and kind != "result":
+            out.fail("working-handler-not-answered-with-result", f"{hk} while {len(msgs) - 1} other message(s) in flight: {w!r}")
+        if hk is None and m["method"] in ("ping", "tools/list", "resources/list") and kind != "result":
+            out.fail("core-method-not-answered-with-result", f"{m['method']}: {w!r}")
+    return out
+
+
 def check(case: Dict[str, Any]) -> Outcome:
     if "gaps" in case:
         return check_life(case)
+    if "concurrent" in case:
+        return check_concurrent(case)
     out = Outcome()
     prog = case.get("server", {})
     try:
@@ -416,9 +549,10 @@ _ids = st.one_of(
 
 @st.composite
 def cases(draw):
-    tools = draw(st.lists(st.sampled_from(HANDLER_KINDS), max_size=3))
-    resources = draw(st.lists(st.sampled_from(["str", "none", "object", "raise"]), max_size=2))
-    custom = draw(st.lists(st.tuples(st.sampled_from(["x/custom", "notifications/cancelled", "notifications/progress", "y/other"]), st.sampled_from(["answer", "raise", "none", "answer_always", "raise_slow", "raise_code_int", "raise_code_str", "raise_code_none", "raise_code_callable"])).map(list), max_size=2, unique_by=lambda t: t[0]))
+    rmk = st.sampled_from(RAISE_MSG_KINDS)
+    tools = draw(st.lists(st.one_of(st.sampled_from(HANDLER_KINDS), st.sampled_from(HANDLER_KINDS), rmk), max_size=3))
+    resources = draw(st.lists(st.one_of(st.sampled_from(["str", "none", "object", "raise", "slow_str", "raise_slow"]), rmk), max_size=2))
+    custom = draw(st.lists(st.tuples(st.sampled_from(["x/custom", "notifications/cancelled", "notifications/progress", "y/other"]), st.one_of(st.sampled_from(["answer", "raise", "none", "answer_always", "raise_slow", "slow_answer", "raise_code_int", "raise_code_str", "raise_code_none", "raise_code_callable"]), rmk)).map(list), max_size=2, unique_by=lambda t: t[0]))
     prog = {"tools": tools, "resources": resources, "custom": custom}
     method = draw(st.one_of(
         st.sampled_from(["initialize", "ping", "tools/list", "tools/call", "resources/list", "resources/read", "tools/call", "resources/read"]),
@@ -451,6 +585,18 @@ def cases(draw):
     case: Dict[str, Any] = {"server": prog, "method": method, "params": params, "how": draw(st.sampled_from(["parse", "unified", "specific"]))}
     if draw(st.integers(0, 2)) > 0:
         case["id"] = draw(_ids)
+    if draw(st.integers(0, 5)) == 0:
+        # the same server with several messages in flight at once
+        pool = [{"method": method, "params": params}, {"method": "tools/call", "params": {"name": "tool0", "arguments": {}}}, {"method": "resources/read", "params": {"uri": "file:///r0"}},
+                {"method": "ping", "params": {}}, {"method": "tools/list", "params": {}}, {"method": "notifications/cancelled", "params": {"requestId": "x"}}] + [{"method": c[0], "params": {}} for c in custom]
+        msgs = []
+        ids = draw(st.lists(_ids, min_size=4, max_size=4, unique_by=lambda i: (type(i).__name__, i)))
+        for k in range(draw(st.integers(2, 4))):
+            m = dict(draw(st.sampled_from(pool)), how=draw(st.sampled_from(["parse", "unified", "specific"])), delay=draw(st.sampled_from([0.0, 0.0, 0.01, 0.02, 0.03])))
+            if not m["method"].startswith("notifications/") or draw(st.integers(0, 4)) == 0:
+                m["id"] = ids[k]
+            msgs.append(m)
+        return {"server": prog, "concurrent": msgs}
     if draw(st.integers(0, 3)) == 0:
         case["session"] = draw(st.sampled_from(["nope", ""]))
     if draw(st.integers(0, 3)) == 0:
@@ -502,7 +648,44 @@ def job_handlers(col: Collector, seed: int, tier: str) -> None:
                 if rid is not None:
                     case["id"] = rid
                 col.record(case, check(case))
-    col.exhaustive_parts.append(f"{len(HANDLER_KINDS)} tool handler behaviours x 5 argument shapes x 4 ids x 3 constructions; 4 resource handler behaviours x 4 ids x 3 constructions")
+    # what the exception says: every (type, text) pair from each of the three kinds of handler
+    for k in RAISE_MSG_KINDS:
+        for rid in (1, "a"):
+            for how in ("parse", "specific"):
+                for case in ({"server": {"tools": [k], "resources": [], "custom": []}, "method": "tools/call", "params": {"name": "tool0", "arguments": {}}},
+                             {"server": {"tools": [], "resources": [k], "custom": []}, "method": "resources/read", "params": {"uri": "file:///r0"}},
+                             {"server": {"tools": [], "resources": [], "custom": [["x/custom", k]]}, "method": "x/custom", "params": {}}):
+                    case = dict(case, how=how, id=rid)
+                    col.record(case, check(case))
+        case = {"server": {"tools": [], "resources": [], "custom": [["notifications/cancelled", k]]}, "method": "notifications/cancelled", "params": {"requestId": 1}, "how": "parse"}
+        col.record(case, check(case))
+    col.exhaustive_parts.append(f"{len(HANDLER_KINDS)} tool handler behaviours x 5 argument shapes x 4 ids x 3 constructions; 4 resource handler behaviours x 4 ids x 3 constructions; {N_EXC} (exception type, text) pairs - empty, multi-line, format-like, non-ASCII, 5000 characters - raised by a tool, a resource and a custom handler")
+
+
+def job_concurrent(col: Collector, seed: int, tier: str) -> None:
+    """2..4 requests in flight on one server: each target kind (slow/fast/raising tool, resource, custom method, core
+    method) against itself with the same arguments and against each other, at start offsets within and beyond the
+    handlers' 20 ms of work"""
+    prog = {"tools": ["slow_str", "raise_slow", "str"], "resources": ["slow_str", "raise_slow", "str"], "custom": [["x/slow", "slow_answer"], ["x/boom", "raise_slow"]]}
+    targets = [{"method": "tools/call", "params": {"name": f"tool{i}", "arguments": {}}} for i in range(3)] + [{"method": "resources/read", "params": {"uri": f"file:///r{i}"}} for i in range(3)] + [
+        {"method": "x/slow", "params": {}}, {"method": "x/boom", "params": {}}, {"method": "ping", "params": {}}, {"method": "tools/list", "params": {}}, {"method": "resources/list", "params": {}}]
+    idsets = [[101, "req-102", -7], [0, "0", ""], ["a", "b", "c"]]
+    n = 0
+    for a in targets:
+        for b in targets:
+            for delays in ((0.0, 0.0, 0.0), (0.0, 0.01, 0.01), (0.0, 0.01, 0.03)):
+                n += 1
+                ids = idsets[n % 3]
+                hows = ["parse", "unified", "specific"]
+                msgs = [dict(a, id=ids[0], how=hows[n % 3], delay=delays[0]), dict(b, id=ids[1], how=hows[(n + 1) % 3], delay=delays[1]), dict(a, id=ids[2], how=hows[(n + 2) % 3], delay=delays[2])]
+                case = {"server": prog, "concurrent": msgs}
+                col.record(case, check(case))
+    # the first of the group is a notification (no id to give away)
+    for a in targets[:8]:
+        msgs = [dict(a, how="parse", delay=0.0), dict(a, id=5, how="parse", delay=0.0), dict(a, id="6", how="specific", delay=0.01)]
+        case = {"server": prog, "concurrent": msgs}
+        col.record(case, check(case))
+    col.exhaustive_parts.append(f"{len(targets)}^2 ordered pairs of targets (the first repeated a third time) x 3 start-offset patterns, 3 requests in flight each")
 
 
 def job_life(col: Collector, seed: int, tier: str) -> None:
@@ -512,13 +695,13 @@ def job_life(col: Collector, seed: int, tier: str) -> None:
     col.exhaustive_parts.append("7 long-lived connections: 150..400 session-bound messages with clock gaps of up to a day at various periods")
 
 
-JOBS = {"hyp": job_hyp, "notifs": job_notifs, "handlers": job_handlers, "life": job_life}
+JOBS = {"hyp": job_hyp, "notifs": job_notifs, "handlers": job_handlers, "life": job_life, "concurrent": job_concurrent}
 
 
 def jobs(tier: str):
     if tier == "quick":
-        return [("hyp", {"shard": s, "n": 400}) for s in range(13)] + [("notifs", {}), ("handlers", {}), ("life", {})]
-    return [("hyp", {"shard": s, "n": 7000}) for s in range(14)] + [("notifs", {}), ("handlers", {}), ("life", {})]
+        return [("hyp", {"shard": s, "n": 400}) for s in range(13)] + [("notifs", {}), ("handlers", {}), ("life", {}), ("concurrent", {})]
+    return [("hyp", {"shard": s, "n": 7000}) for s in range(14)] + [("notifs", {}), ("handlers", {}), ("life", {}), ("concurrent", {})]
 
 
 def shrink(signature: str, seed: int):
